@@ -1056,3 +1056,8 @@ mod tests {
             .unwrap();
     }
 }
+
+#[cfg(kani)]
+mod verif_kani {
+    include!(concat!(env!("REPE_VERIF_KANI"), "/async_client.rs"));
+}
